@@ -110,6 +110,15 @@ fragment Inner on __Type { kind name enumValues(includeDeprecated: $all) { name 
  ofType { kind name enumValues(includeDeprecated: $all) { name } ofType { kind name enumValues(includeDeprecated: $all) { name }
  ofType { kind name enumValues(includeDeprecated: $all) { name } } } } }`
 
+// every list-valued selection of a __Type twice on the same object, once with includeDeprecated and once
+// without (and the other way round under other aliases): what one selection is given must not reach
+// its neighbours, whichever of them the resolver visits first
+const siblingsIntrospection = `query Siblings($yes: Boolean!) { __schema { types { name
+ all: fields(includeDeprecated: true) { name } live: fields { name } byVar: fields(includeDeprecated: $yes) { name } no: fields(includeDeprecated: false) { name }
+ allValues: enumValues(includeDeprecated: true) { name } liveValues: enumValues { name } valuesByVar: enumValues(includeDeprecated: $yes) { name }
+ fields { name args { name d: defaultValue defaultValue t: type { kind name } } }
+ inputFields { n: name d: defaultValue } } directives { n: name r: isRepeatable l: locations args { n: name d: defaultValue } } } }`
+
 type iGen struct {
 	r      *rand.Rand
 	names  []string // type names of the merged schema
@@ -476,6 +485,11 @@ func runC14(cfg *runCfg) error {
 			case qi == 0 && i%4 == 2:
 				cs.Query, cs.Vars = variableIntrospection, map[string]interface{}{"all": i%8 == 2}
 				cs.Tags = []string{"canonical-with-variables"}
+			case qi == 1 || (qi == 2 && i%2 == 0):
+				// (asked two or three times per schema: the order in which the resolvers visit the selections
+				// of one object is Go's map order)
+				cs.Query, cs.Vars = siblingsIntrospection, map[string]interface{}{"yes": (i+qi)%2 == 0}
+				cs.Tags = []string{"siblings-with-and-without-includeDeprecated"}
 			default:
 				cs.Query = g.query()
 				cs.Vars = g.vars
